@@ -595,6 +595,9 @@ type rawSendCase struct {
 	Refuse      string  `json:"refuse_with,omitempty"` // stanza error condition, "" = accept
 	RefuseType  string  `json:"refuse_type,omitempty"`
 	Dir         dirSpec `json:"write"`
+	// CloseAt > 0: instead of acknowledging that data packet (1-based) the
+	// speaker sends <close/>, and acknowledges afterwards.
+	CloseAt int `json:"peer_closes_instead_of_acking_packet,omitempty"`
 }
 
 var refusals = [][2]string{
@@ -619,6 +622,9 @@ func genRawSend(r *rand.Rand, tier string) *rawSendCase {
 		maxLen = eb * maxPk
 	}
 	rs.Dir = genDir(r, rs.Block, maxLen, 2*maxPk)
+	if rs.Carrier == "iq" && r.Intn(3) == 0 {
+		rs.CloseAt = 1 + r.Intn(3)
+	}
 	return rs
 }
 
@@ -715,24 +721,10 @@ func execRawSend(c *core.Case, rs *rawSendCase) {
 	var recv []byte
 	want, npk := 0, 0
 	problem := ""
-	for {
-		n := rp.expect(func(n *xmltree.Node) bool {
-			return n.Child(nsIBB, "data") != nil || n.Child(nsIBB, "close") != nil
-		}, hardLimit)
-		if n == nil {
-			c.Notef("raw receiver: no <close/> after %d packets", npk)
-			{
-				c.Inconclusive("a wait ran out and the stall rule does not apply")
-				return
-			}
-		}
-		if cl := n.Child(nsIBB, "close"); cl != nil {
-			if cl.Attr("sid") != sid && problem == "" {
-				problem = fmt.Sprintf("<close/> names sid %q, the stream is %q", cl.Attr("sid"), sid)
-			}
-			rp.send(fmt.Sprintf(`<iq type='result' id='%s' from='%s' to='%s'/>`, n.Attr("id"), peerAddr, libAddr))
-			break
-		}
+	isStreamEl := func(n *xmltree.Node) bool {
+		return n.Child(nsIBB, "data") != nil || n.Child(nsIBB, "close") != nil
+	}
+	takeData := func(n *xmltree.Node) {
 		d := n.Child(nsIBB, "data")
 		if n.Name.Local != rs.Carrier && problem == "" {
 			problem = fmt.Sprintf("packet %d is carried by <%s/>, the stream was opened with stanza=%s", npk, n.Name.Local, rs.Carrier)
@@ -750,21 +742,73 @@ func execRawSend(c *core.Case, rs *rawSendCase) {
 		recv = append(recv, b...)
 		want = (want + 1) % 65536
 		npk++
+	}
+	ack := func(n *xmltree.Node) {
 		if n.Name.Local == "iq" {
 			rp.send(fmt.Sprintf(`<iq type='result' id='%s' from='%s' to='%s'/>`, n.Attr("id"), peerAddr, libAddr))
 		}
 	}
+	peerClosed := false
 	var werr error
-	select {
-	case werr = <-wres:
-	case <-time.After(hardLimit):
-		{
-			c.Inconclusive("a wait ran out and the stall rule does not apply")
+	for {
+		n := rp.expect(isStreamEl, hardLimit)
+		if n == nil {
+			c.Inconclusive("raw receiver: no <close/> after %d packets", npk)
 			return
 		}
+		if cl := n.Child(nsIBB, "close"); cl != nil {
+			if cl.Attr("sid") != sid && problem == "" {
+				problem = fmt.Sprintf("<close/> names sid %q, the stream is %q", cl.Attr("sid"), sid)
+			}
+			ack(n)
+			break
+		}
+		takeData(n)
+		if rs.CloseAt > 0 && npk == rs.CloseAt && n.Name.Local == "iq" {
+			// The writer is inside Write/Flush waiting for this packet's
+			// acknowledgement.  Instead of it, the peer's <close/> arrives.
+			rep := rp.closeSID(sid)
+			if rep == nil || rep.Attr("type") != "result" {
+				c.Violate("ibb:close:refused", "<close/> for the open stream (sent while a data packet was unacknowledged) was answered with %v", rep)
+				return
+			}
+			ack(n)
+			peerClosed = true
+			select {
+			case werr = <-wres:
+			case <-time.After(hardLimit):
+				c.Inconclusive("raw receiver: the interrupted writer did not return")
+				return
+			}
+			// whatever else the library put on the wire
+			if !rp.barrier() {
+				c.Violate("ibb:session-ended:after-peer-close", "after the peer's <close/> during a Write the session no longer answers")
+				return
+			}
+			for {
+				m := rp.expect(isStreamEl, 0)
+				if m == nil {
+					break
+				}
+				if m.Child(nsIBB, "data") != nil {
+					takeData(m)
+				}
+			}
+			c.Count("peer_closed_during_write", 1)
+			break
+		}
+		ack(n)
 	}
-	if werr != nil {
-		c.Violate("ibb:write:error", "raw receiver acknowledged everything, yet the writer failed: %v", werr)
+	if !peerClosed {
+		select {
+		case werr = <-wres:
+		case <-time.After(hardLimit):
+			c.Inconclusive("raw receiver: the writer did not return after its <close/> was answered")
+			return
+		}
+		if werr != nil {
+			c.Violate("ibb:write:error", "raw receiver acknowledged everything, yet the writer failed: %v", werr)
+		}
 	}
 	if problem != "" {
 		key := "ibb:seq:numbering"
@@ -773,14 +817,15 @@ func execRawSend(c *core.Case, rs *rawSendCase) {
 		} else if !strings.Contains(problem, "seq=") {
 			key = "ibb:wire:addressing"
 		}
-		c.Violate(key, "library → raw receiver (%s, block %d): %s", rs.Carrier, rs.Block, problem)
+		c.Violate(key, "library → raw receiver (%s, block %d, peer closed during write: %v): %s", rs.Carrier, rs.Block, peerClosed, problem)
 	}
-	if class, at := diffClass(recv, data); class != "" {
-		c.Violate("ibb:"+class+":sender", "library → raw receiver (%s, block %d, %d bytes, partition %s): %d bytes arrived in %d packets; first departure (%s) at offset %d: got %s want %s",
-			rs.Carrier, rs.Block, len(data), rs.Dir.Part, len(recv), npk, class, at, around(recv, at), around(data, at))
+	// (a numbering problem already explains repeated or missing bytes)
+	if class, at := diffClass(recv, data); class != "" && problem == "" && !(peerClosed && class == "short") {
+		c.Violate("ibb:"+class+":sender", "library → raw receiver (%s, block %d, %d bytes, partition %s, peer closed during write: %v): %d bytes arrived in %d packets; first departure (%s) at offset %d: got %s want %s",
+			rs.Carrier, rs.Block, len(data), rs.Dir.Part, peerClosed, len(recv), npk, class, at, around(recv, at), around(data, at))
 	}
 	c.Count("raw_receiver_transfers", 1)
 	c.Count("data_packets_on_wire", npk)
 	c.Count("carrier_"+rs.Carrier, 1)
-	c.Sig("raw-send block=%s %s len=%s part=%s", blockClass(rs.Block), rs.Carrier, rs.Dir.LenClass, rs.Dir.Part)
+	c.Sig("raw-send block=%s %s len=%s part=%s peer-closed=%v", blockClass(rs.Block), rs.Carrier, rs.Dir.LenClass, rs.Dir.Part, peerClosed)
 }
